@@ -57,7 +57,13 @@ def _arg_to_sympy(text: str):
 def _mode_formula(test: ast.AST):
     """Boolean formula over A = (dt is None), B = dt_adapt for a branch test of add_var_hist; None if it mentions anything else."""
     from sympy import Symbol, Not, And, Or
+    from sympy import true as _T, false as _F
     A, B = Symbol("dt_is_None"), Symbol("dt_adapt")
+    if isinstance(test, ast.Constant) and isinstance(test.value, bool):
+        return _T if test.value else _F
+    if isinstance(test, ast.Compare) and len(test.ops) == 1 and isinstance(test.left, ast.Constant) and test.left.value is None \
+            and isinstance(test.comparators[0], ast.Constant) and test.comparators[0].value is None:
+        return _T if isinstance(test.ops[0], (ast.Is, ast.Eq)) else _F
     if isinstance(test, ast.Name) and test.id == "dt_adapt":
         return B
     if isinstance(test, ast.Name) and test.id == "dt":
@@ -89,7 +95,17 @@ def _emissions(ctx, rid, f):
     out = []
     opaque = {}
 
-    def formula(test):
+    def formula(test, env=None):
+        if env:
+            # a helper's parameter that was bound on this path to `dt`, `dt_adapt`, None or a literal stands for that value
+            class _Sub(ast.NodeTransformer):
+                def visit_Name(self, n):
+                    v, k = n, 0
+                    while isinstance(v, ast.Name) and v.id in env and k < 5:
+                        v, k = env[v.id], k + 1
+                    return v if isinstance(v, (ast.Name, ast.Constant)) else n
+            from engine.inline import clone
+            test = _Sub().visit(clone(test))
         fm = _mode_formula(test)
         if fm is None:
             if any(isinstance(n, ast.Name) and n.id in ("dt", "dt_adapt") for n in ast.walk(test)):
@@ -118,7 +134,10 @@ def _emissions(ctx, rid, f):
                         parts.append(str(v.value))
                     else:
                         inner = tmpl(v.value, env) if isinstance(v.value, ast.Name) and v.value.id in env else None
-                        parts.append(inner if inner is not None else "⟨" + ast.unparse(v.value) + "⟩")
+                        hv, k_ = v.value, 0
+                        while inner is None and isinstance(hv, ast.Name) and hv.id in env and isinstance(env[hv.id], ast.Name) and k_ < 5:
+                            hv, k_ = env[hv.id], k_ + 1          # a helper's parameter bound to a plain name stands for that name
+                        parts.append(inner if inner is not None else "⟨" + ast.unparse(hv) + "⟩")
                 return "".join(parts)
             if isinstance(e, ast.BinOp) and isinstance(e.op, ast.Add):
                 l, r = tmpl(e.left, env), tmpl(e.right, env)
@@ -129,11 +148,11 @@ def _emissions(ctx, rid, f):
             for env, cond, lines, stores in states:
                 if isinstance(st, ast.If) and k + 1 < len(path):
                     labels = cfg.g[st][path[k + 1]]["labels"]
-                    fm = formula(st.test)
+                    fm = formula(st.test, env)
                     nxt.append((env, And(cond, fm if "true" in labels else Not(fm)), lines, stores))
                 elif isinstance(st, ast.Assign) and len(st.targets) == 1 and isinstance(st.targets[0], ast.Name):
                     if isinstance(st.value, ast.IfExp):
-                        fm = formula(st.value.test)
+                        fm = formula(st.value.test, env)
                         for arm, c2 in ((st.value.body, fm), (st.value.orelse, Not(fm))):
                             e2 = dict(env)
                             e2[st.targets[0].id] = arm
@@ -304,6 +323,56 @@ def r1_add_var_hist(ctx, rid):
         n += 1
         for need in ("lhs", "delay", "state_idx", "dt", "dt_adapt"):
             ctx.require(need in f.params, f"{rid}: {f.qual}: parameter `{need}` vanished")
+        # the line may be assembled by helpers of the backend (a shared time-expression helper, a "history read" helper): splice them in
+        from engine.inline import inlined
+        def self_call(c):
+            return isinstance(c, ast.Call) and isinstance(c.func, ast.Attribute) and isinstance(c.func.value, ast.Name) \
+                and c.func.value.id in (f.self_name, "cls")
+        all_called = {call_name(c) for c in walk_shallow(f.node) if self_call(c)} - {None}
+        hole_names, text_helpers = set(), set()
+        for c in walk_shallow(f.node):
+            if isinstance(c, ast.Call) and call_name(c) == "add_code_line" and c.args:
+                for fv in ast.walk(c.args[0]):
+                    if isinstance(fv, ast.FormattedValue):
+                        if isinstance(fv.value, ast.Name):
+                            hole_names.add(fv.value.id)
+                        elif self_call(fv.value):
+                            text_helpers.add(call_name(fv.value))
+        for st_ in walk_shallow(f.node):
+            if isinstance(st_, ast.Assign) and len(st_.targets) == 1 and isinstance(st_.targets[0], ast.Name) and st_.targets[0].id in hole_names \
+                    and self_call(st_.value):
+                text_helpers.add(call_name(st_.value))
+        text_helpers -= {"_process_delay", "_process_idx"}
+        f_orig = f
+        if any(self_call(fv.value) for c in walk_shallow(f.node) if isinstance(c, ast.Call) and call_name(c) == "add_code_line" and c.args
+               for fv in ast.walk(c.args[0]) if isinstance(fv, ast.FormattedValue)):
+            # `add_code_line(f"{lhs} = {self._helper(..)}")`: give the helper's result a name first, so that the statement-level
+            # splicer can take the helper apart
+            from engine.inline import clone, _mk, InlinedFunction
+            from engine.srcmodel import set_parents
+            node_ = clone(f.node)
+            k_tmp = [0]
+
+            class _Hoist(ast.NodeTransformer):
+                def visit_Expr(self, st_):
+                    pre = []
+                    for c in ast.walk(st_):
+                        if isinstance(c, ast.Call) and call_name(c) == "add_code_line" and c.args:
+                            for fv in ast.walk(c.args[0]):
+                                if isinstance(fv, ast.FormattedValue) and self_call(fv.value):
+                                    k_tmp[0] += 1
+                                    nm_ = f"_emitted_text_{k_tmp[0]}"
+                                    pre.append(ast.copy_location(ast.Assign(targets=[ast.Name(id=nm_, ctx=ast.Store())], value=fv.value), st_))
+                                    fv.value = ast.copy_location(ast.Name(id=nm_, ctx=ast.Load()), fv)
+                    return pre + [st_] if pre else st_
+            node_ = _Hoist().visit(node_)
+            ast.fix_missing_locations(node_)
+            set_parents(node_)
+            node_._parent = getattr(f.node, "_parent", None)
+            fh = _mk(InlinedFunction, f, node_)
+            fh.origin = f
+            f = fh
+        f = inlined(ctx, f, keep=("_process_delay", "_process_idx") + tuple(sorted(all_called - text_helpers - {"_process_delay", "_process_idx"})) + tuple("+" + n_ for n_ in sorted(text_helpers) if not n_.startswith("_")))
         ems = _emissions(ctx, rid, f)
         reported = set()
         for mode, mform in MODES.items():
